@@ -281,9 +281,7 @@ pub fn shmem_touch(
     if let Some(cb) = cb {
         let _ = cb.validate_for_bind();
         let _ = cb.pid_tracking();
-        if buf.len() >= 4096 {
-            cb.to_mapped(buf);
-        }
+        cb.to_mapped(buf);
         n += 1;
     }
     let mut p = pt.clone();
